@@ -2,6 +2,7 @@ package c16
 
 import (
 	"fmt"
+	"math"
 	"sort"
 	"strings"
 	"time"
@@ -9,8 +10,11 @@ import (
 	"go.uber.org/mock/gomock"
 	metav1 "k8s.io/apimachinery/pkg/apis/meta/v1"
 
+	enginev2alpha2 "github.com/NVIDIA/KAI-scheduler/pkg/apis/scheduling/v2alpha2"
 	"github.com/NVIDIA/KAI-scheduler/pkg/scheduler/actions/allocate"
+	"github.com/NVIDIA/KAI-scheduler/pkg/scheduler/api"
 	"github.com/NVIDIA/KAI-scheduler/pkg/scheduler/api/common_info"
+	"github.com/NVIDIA/KAI-scheduler/pkg/scheduler/api/pod_info"
 	"github.com/NVIDIA/KAI-scheduler/pkg/scheduler/api/pod_status"
 	"github.com/NVIDIA/KAI-scheduler/pkg/scheduler/framework"
 	"github.com/NVIDIA/KAI-scheduler/pkg/scheduler/test_utils"
@@ -29,32 +33,75 @@ type template struct {
 	CPUs  float64 // millicpu per task
 }
 
+// spec.preemptibility of a pod group
+const (
+	specUnset = iota
+	specPreemptible
+	specNonPreemptible
+)
+
+var specName = []string{"", string(enginev2alpha2.Preemptible), string(enginev2alpha2.NonPreemptible)}
+
+// supposedPre mirrors pkg/common/podgroup.CalculatePreemptibility: what the scheduler is
+// supposed to see. An explicit value wins; otherwise priority < 100 is preemptible.
+// (Deliberately not PodGroupInfo.IsPreemptibleJob: that is code under test.)
+func supposedPre(spec int, prio int32) int {
+	if spec != specUnset {
+		return spec
+	}
+	if prio < 100 {
+		return specPreemptible
+	}
+	return specNonPreemptible
+}
+
 type alJob struct {
 	UID      int
 	Queue    int // leaf queue id
 	Prio     int32
 	Age      int64 // creation time, seconds after the base time
 	Template int
+	Spec     int    // spec.preemptibility: unset / preemptible / non-preemptible, independent of Prio
 	Running  string // node name when the job is already running (not a candidate)
+	RunGPUs  int    // GPUs of the single pod of a running job
 }
 
 type alQueue struct {
+	ID          int
+	Dept        int
+	Deserved    float64
+	Limit       float64 // -1 = none
+	Weight      float64
+	DeservedCPU float64 // millicpu, -1 = unlimited
+	LimitCPU    float64 // millicpu, -1 = none
+}
+
+type alDept struct {
 	ID       int
-	Dept     int
-	Deserved float64
+	Deserved float64 // -1 = unlimited
 	Limit    float64 // -1 = none
-	Weight   float64
 }
 
 type cluster struct {
 	Nodes     []int // GPUs per node
-	Depts     []int
+	Depts     []alDept
 	Queues    []alQueue
 	Templates []template
 	Jobs      []alJob
 }
 
-func genCluster(r *u.Rng) cluster {
+var allocPrios = []int32{40, 50, 50, 60, 75, 99, 100, 100, 125}
+
+// specFor draws a spec.preemptibility that resolves to the wanted preemptibility for this priority:
+// explicit, or left unset when the priority alone gives the same.
+func specFor(r *u.Rng, want int, prio int32) int {
+	if supposedPre(specUnset, prio) == want && r.Chance(1, 2) {
+		return specUnset
+	}
+	return want
+}
+
+func genCluster(r *u.Rng, pool []int32) cluster {
 	var c cluster
 	nn := r.Range(1, 4)
 	total := 0
@@ -63,15 +110,27 @@ func genCluster(r *u.Rng) cluster {
 		c.Nodes = append(c.Nodes, g)
 		total += g
 	}
+	free := append([]int(nil), c.Nodes...)
 	nd := r.Range(1, 2)
 	for i := 0; i < nd; i++ {
-		c.Depts = append(c.Depts, 1000+i+1)
+		d := alDept{ID: 1000 + i + 1, Deserved: -1, Limit: -1}
+		if r.Chance(1, 3) {
+			d.Deserved = float64(r.Range(1, total))
+		}
+		if r.Chance(1, 4) {
+			d.Limit = float64(r.Range(total/2+1, total))
+		}
+		c.Depts = append(c.Depts, d)
 	}
 	nq := r.Range(2, 6)
 	for i := 0; i < nq; i++ {
-		q := alQueue{ID: i + 1, Dept: u.Pick(r, c.Depts), Deserved: float64(r.Intn(total/2 + 1)), Limit: -1, Weight: float64(r.Range(1, 3))}
-		if r.Chance(1, 3) {
-			q.Limit = float64(r.Range(1, total))
+		q := alQueue{ID: i + 1, Dept: u.Pick(r, c.Depts).ID, Deserved: float64(r.Intn(total/2 + 1)), Limit: -1,
+			Weight: float64(r.Range(1, 3)), DeservedCPU: -1, LimitCPU: -1}
+		if r.Chance(1, 6) {
+			q.DeservedCPU = float64(r.Range(1, 12) * 500)
+		}
+		if r.Chance(1, 8) {
+			q.LimitCPU = float64(r.Range(2, 16) * 500)
 		}
 		c.Queues = append(c.Queues, q)
 	}
@@ -79,32 +138,139 @@ func genCluster(r *u.Rng) cluster {
 	for i := 0; i < nt; i++ {
 		c.Templates = append(c.Templates, template{Tasks: r.Range(1, 3), GPUs: r.Range(1, 2), CPUs: float64(r.Range(1, 4) * 500)})
 	}
-	nj := r.Range(4, 28)
-	// concentrate jobs so that comparable pairs are frequent
-	hot := r.Range(1, nq)
-	for i := 0; i < nj; i++ {
-		q := r.Range(1, nq)
-		if r.Chance(1, 2) {
-			q = hot
+
+	// running jobs first: non-preemptible ones that use a queue's deserved quota partly, fully or
+	// beyond it (a quota lowered after they started), and preemptible ones over quota. Their
+	// preemptibility is explicit or derived, whatever the priority. At least a third of the
+	// cluster stays free for the pending jobs.
+	uid := 0
+	budget := total - total/3 - 1
+	used := map[int]int{} // GPUs allocated per queue
+	place := func(g int) string {
+		order := make([]int, nn)
+		for i := range order {
+			order[i] = i
 		}
-		c.Jobs = append(c.Jobs, alJob{UID: i + 1, Queue: q, Prio: u.Pick(r, prios),
-			Age: int64(r.Intn(8)), Template: r.Intn(nt)})
+		u.Shuffle(r, order)
+		for _, i := range order {
+			if free[i] >= g {
+				free[i] -= g
+				return nodeName(i)
+			}
+		}
+		return ""
 	}
-	// a few running single-GPU jobs so that nodes and queues start unevenly used
-	nr := r.Intn(3)
-	for i := 0; i < nr; i++ {
-		c.Jobs = append(c.Jobs, alJob{UID: nj + i + 1, Queue: r.Range(1, nq), Prio: 50, Age: 0, Template: -1,
-			Running: nodeName(r.Intn(nn))})
+	run := func(q int, want int) bool {
+		g := r.Range(1, 2)
+		if g > budget {
+			g = 1
+		}
+		if budget < g {
+			return false
+		}
+		node := place(g)
+		if node == "" {
+			return false
+		}
+		budget -= g
+		used[q] += g
+		uid++
+		prio := u.Pick(r, pool)
+		c.Jobs = append(c.Jobs, alJob{UID: 500 + uid, Queue: q, Prio: prio, Spec: specFor(r, want, prio), Template: -1,
+			Running: node, RunGPUs: g})
+		return true
+	}
+	for _, q := range c.Queues {
+		if !r.Chance(2, 3) {
+			continue
+		}
+		des := int(q.Deserved)
+		target := 0
+		switch r.Intn(5) {
+		case 0, 1:
+			target = des // quota fully used by non-preemptible work
+		case 2:
+			target = des - 1
+		case 3:
+			target = des + 1
+		default:
+			target = r.Intn(des + 1)
+		}
+		np := 0
+		for np < target && run(q.ID, specNonPreemptible) {
+			np = used[q.ID]
+		}
+		if r.Chance(1, 3) {
+			run(q.ID, specPreemptible)
+		}
+	}
+	// limits, mostly at or just above what the queue already uses
+	for i := range c.Queues {
+		if r.Chance(1, 3) {
+			lim := used[c.Queues[i].ID] + r.Intn(7)
+			if r.Chance(1, 4) {
+				lim = r.Range(1, total)
+			}
+			if lim < 1 {
+				lim = 1
+			}
+			c.Queues[i].Limit = float64(lim)
+		}
+	}
+
+	// pending jobs, concentrated so that comparable pairs (same leaf queue, template and
+	// preemptibility; priorities on both sides of 100) are frequent
+	nj := r.Range(4, 28)
+	hotQ := r.Range(1, nq)
+	hotT := r.Intn(nt)
+	hotPre := specPreemptible
+	if r.Chance(2, 5) {
+		hotPre = specNonPreemptible
+	}
+	for i := 0; i < nj; i++ {
+		q, t, want := r.Range(1, nq), r.Intn(nt), specPreemptible
+		if r.Chance(2, 5) {
+			want = specNonPreemptible
+		}
+		if r.Chance(1, 2) {
+			q = hotQ
+			if r.Chance(2, 3) {
+				t, want = hotT, hotPre
+			}
+		}
+		prio := u.Pick(r, pool)
+		c.Jobs = append(c.Jobs, alJob{UID: i + 1, Queue: q, Prio: prio, Age: int64(r.Intn(8)), Template: t,
+			Spec: specFor(r, want, prio)})
 	}
 	return c
 }
 
 func nodeName(i int) string { return fmt.Sprintf("node%d", i) }
 
+// gateObs is what the real capacity gates answered for a pending job and all its pending pods
+// when the session opened: 0 schedulable, 1 over limit, 2 non-preemptible over quota.
+type gateObs struct {
+	UID      int
+	Capacity int
+	NPQuota  int
+}
+
+type preObs struct {
+	UID  int
+	Spec int
+	Seen int
+}
+
+var verdictTerm = []string{"Schedulable", "OverLimit", "NonPreemptibleOverQuota"}
+var verdictShort = []string{"ok", "limit", "npquota"}
+
 type alResult struct {
-	Jobs   []jobSpec // pending candidates as the scheduler saw them
-	Order  []int     // UIDs of placed candidates, in order of first allocation
-	Placed map[int]bool
+	Jobs    []jobSpec // pending candidates as the scheduler saw them
+	Running []jobSpec
+	Pre     []preObs
+	Gates   []gateObs
+	Order   []int // UIDs of placed candidates, in order of first allocation
+	Placed  map[int]bool
 }
 
 type reporter struct{ failed int }
@@ -127,6 +293,13 @@ func newAllocRunner() *allocRunner {
 	return &allocRunner{reporter: rep, ctrl: gomock.NewController(rep)}
 }
 
+func optF(v float64) *float64 {
+	if v < 0 {
+		return nil
+	}
+	return &v
+}
+
 func (c cluster) topology() test_utils.TestTopologyBasic {
 	topo := test_utils.TestTopologyBasic{
 		Name:  "c16",
@@ -139,16 +312,19 @@ func (c cluster) topology() test_utils.TestTopologyBasic {
 	}
 	for _, d := range c.Depts {
 		topo.Departments = append(topo.Departments, test_utils.TestDepartmentBasic{
-			Name: queueStr(d), DeservedGPUs: common_info.NoMaxAllowedResource, MaxAllowedGPUs: common_info.NoMaxAllowedResource})
+			Name: queueStr(d.ID), DeservedGPUs: d.Deserved, MaxAllowedGPUs: d.Limit})
 	}
 	for _, q := range c.Queues {
 		topo.Queues = append(topo.Queues, test_utils.TestQueueBasic{
-			Name: queueStr(q.ID), ParentQueue: queueStr(q.Dept), DeservedGPUs: q.Deserved, MaxAllowedGPUs: q.Limit, GPUOverQuotaWeight: q.Weight})
+			Name: queueStr(q.ID), ParentQueue: queueStr(q.Dept), DeservedGPUs: q.Deserved, MaxAllowedGPUs: q.Limit,
+			GPUOverQuotaWeight: q.Weight, DeservedCPUs: optF(q.DeservedCPU), MaxAllowedCPUs: optF(q.LimitCPU)})
 	}
 	for _, j := range c.Jobs {
-		job := &jobs_fake.TestJobBasic{Name: uidStr(j.UID), QueueName: queueStr(j.Queue), Priority: j.Prio, JobAgeInMinutes: 1}
+		job := &jobs_fake.TestJobBasic{Name: uidStr(j.UID), QueueName: queueStr(j.Queue), Priority: j.Prio, JobAgeInMinutes: 1,
+			Preemptibility: enginev2alpha2.Preemptibility(specName[j.Spec])}
 		if j.Running != "" {
-			job.RequiredGPUsPerTask = 1
+			job.RequiredGPUsPerTask = float64(j.RunGPUs)
+			job.RequiredCPUsPerTask = 500
 			job.Tasks = []*tasks_fake.TestTaskBasic{{State: pod_status.Running, NodeName: j.Running}}
 		} else {
 			t := c.Templates[j.Template]
@@ -171,7 +347,63 @@ func placedStatus(s pod_status.PodStatus) bool {
 	return false
 }
 
-// run executes the real allocate action once and reads the decisions back.
+func seenPre(p enginev2alpha2.Preemptibility) int {
+	switch p {
+	case enginev2alpha2.Preemptible:
+		return specPreemptible
+	case enginev2alpha2.NonPreemptible:
+		return specNonPreemptible
+	}
+	return specUnset
+}
+
+func thousandths(v float64) (int64, error) {
+	t := v * 1000
+	if t != math.Trunc(t) || math.Abs(t) > 1e15 {
+		return 0, fmt.Errorf("quantity %v is not exact in thousandths", v)
+	}
+	return int64(t), nil
+}
+
+// request sums what the pods ask for, as capacity_policy.getRequiredQuota (pending pods: ResReq)
+// and proportion's usage accounting (allocated pods: AcceptedResource) do: cpu, memory, gpu.
+func request(pods []*pod_info.PodInfo, accepted bool) ([]int64, error) {
+	var cpu, mem, gpu float64
+	for _, p := range pods {
+		rr := p.ResReq
+		if accepted && p.AcceptedResource != nil {
+			rr = p.AcceptedResource
+		}
+		cpu += rr.Cpu()
+		mem += rr.Memory()
+		gpu += rr.GetGpusQuota()
+	}
+	out := make([]int64, 3)
+	for i, v := range []float64{cpu, mem, gpu} {
+		t, err := thousandths(v)
+		if err != nil {
+			return nil, err
+		}
+		out[i] = t
+	}
+	return out, nil
+}
+
+func verdictOf(res *api.SchedulableResult) (int, error) {
+	if res.IsSchedulable {
+		return 0, nil
+	}
+	switch res.Reason {
+	case enginev2alpha2.OverLimit:
+		return 1, nil
+	case enginev2alpha2.NonPreemptibleOverQuota:
+		return 2, nil
+	}
+	return 0, fmt.Errorf("capacity gate: unexpected reason %q", res.Reason)
+}
+
+// run opens a real session, asks the real capacity gates about every pending job, executes the
+// real allocate action once and reads the decisions back.
 func (a *allocRunner) run(c cluster, depth int) (res alResult, err error) {
 	defer func() {
 		if p := recover(); p != nil {
@@ -180,16 +412,77 @@ func (a *allocRunner) run(c cluster, depth int) (res alResult, err error) {
 	}()
 	ssn := test_utils.BuildSession(c.topology(), a.ctrl)
 	byUID := map[int]alJob{}
+	var pendingUIDs, runningUIDs []int
 	for _, j := range c.Jobs {
 		byUID[j.UID] = j
 		// exact, tie-prone creation times (jobs_fake derives them from time.Now())
 		if info, ok := ssn.ClusterInfo.PodGroupInfos[common_info.PodGroupID(uidStr(j.UID))]; ok {
 			info.CreationTimestamp = metav1.Time{Time: baseTime.Add(time.Duration(j.Age) * time.Second)}
 		}
+		if j.Running == "" {
+			pendingUIDs = append(pendingUIDs, j.UID)
+		} else {
+			runningUIDs = append(runningUIDs, j.UID)
+		}
 	}
+	sort.Ints(pendingUIDs)
+	sort.Ints(runningUIDs)
 	if depth >= 0 {
 		ssn.Config.QueueDepthPerAction = map[string]int{string(framework.Allocate): depth}
 	}
+
+	podsOf := func(uid int) []*pod_info.PodInfo {
+		info := ssn.ClusterInfo.PodGroupInfos[common_info.PodGroupID(uidStr(uid))]
+		var pods []*pod_info.PodInfo
+		for _, t := range info.GetAllPodsMap() {
+			pods = append(pods, t)
+		}
+		sort.Slice(pods, func(i, k int) bool { return pods[i].UID < pods[k].UID })
+		return pods
+	}
+	spec := func(uid int, accepted bool) (jobSpec, error) {
+		j := byUID[uid]
+		info := ssn.ClusterInfo.PodGroupInfos[common_info.PodGroupID(uidStr(uid))]
+		pods := podsOf(uid)
+		req, err := request(pods, accepted)
+		if err != nil {
+			return jobSpec{}, err
+		}
+		res.Pre = append(res.Pre, preObs{UID: uid, Spec: j.Spec, Seen: seenPre(info.Preemptibility)})
+		sub := [][2]int{{0, len(pods)}}
+		if accepted {
+			sub = [][2]int{{len(pods), len(pods)}}
+		}
+		return jobSpec{UID: uid, Queue: j.Queue, Prio: info.Priority, CTime: j.Age, Sub: sub, Shape: j.Template,
+			Pre: supposedPre(j.Spec, j.Prio), Req: req}, nil
+	}
+	for _, uid := range runningUIDs {
+		js, err := spec(uid, true)
+		if err != nil {
+			return res, err
+		}
+		res.Running = append(res.Running, js)
+	}
+	// the real gates at session open, before anything is allocated
+	for _, uid := range pendingUIDs {
+		js, err := spec(uid, false)
+		if err != nil {
+			return res, err
+		}
+		res.Jobs = append(res.Jobs, js)
+		info := ssn.ClusterInfo.PodGroupInfos[common_info.PodGroupID(uidStr(uid))]
+		pods := podsOf(uid)
+		vc, err := verdictOf(ssn.IsJobOverQueueCapacityFn(info, pods))
+		if err != nil {
+			return res, err
+		}
+		vq, err := verdictOf(ssn.IsNonPreemptibleJobOverQueueQuotaFn(info, pods))
+		if err != nil {
+			return res, err
+		}
+		res.Gates = append(res.Gates, gateObs{UID: uid, Capacity: vc, NPQuota: vq})
+	}
+
 	first := map[int]bool{}
 	var seq []int
 	ssn.AddEventHandler(&framework.EventHandler{AllocateFunc: func(e *framework.Event) {
@@ -204,16 +497,8 @@ func (a *allocRunner) run(c cluster, depth int) (res alResult, err error) {
 	allocate.New().Execute(ssn)
 
 	res.Placed = map[int]bool{}
-	var uids []int
-	for _, j := range c.Jobs {
-		if j.Running == "" {
-			uids = append(uids, j.UID)
-		}
-	}
-	sort.Ints(uids)
-	for _, uid := range uids {
+	for _, uid := range pendingUIDs {
 		info := ssn.ClusterInfo.PodGroupInfos[common_info.PodGroupID(uidStr(uid))]
-		j := byUID[uid]
 		placed := true
 		ntasks := 0
 		for _, t := range info.GetAllPodsMap() {
@@ -223,12 +508,6 @@ func (a *allocRunner) run(c cluster, depth int) (res alResult, err error) {
 			}
 		}
 		res.Placed[uid] = placed && ntasks > 0
-		shape := j.Template * 2
-		if !info.IsPreemptibleJob() {
-			shape++
-		}
-		res.Jobs = append(res.Jobs, jobSpec{UID: uid, Queue: j.Queue, Prio: info.Priority, CTime: j.Age,
-			Sub: [][2]int{{0, ntasks}}, Shape: shape})
 	}
 	for _, uid := range seq {
 		if res.Placed[uid] {
@@ -238,10 +517,69 @@ func (a *allocRunner) run(c cluster, depth int) (res alResult, err error) {
 	return res, nil
 }
 
+func scaled(v float64) int64 {
+	if v < 0 {
+		return -1
+	}
+	return int64(math.Round(v * 1000))
+}
+
+func shareTerm(deserved, limit float64) string {
+	return fmt.Sprintf("{| rs_deserved := %s; rs_max_allowed := %s; rs_allocated := 0; rs_allocated_np := 0 |}",
+		u.Z(scaled(deserved)), u.Z(scaled(limit)))
+}
+
+// quotasTerm is the queue map of the proportion plugin before any usage is accounted: quotas and
+// limits as test_utils hands them to the plugin (cpu and memory of departments, and memory of
+// queues, are unlimited there; a GPU limit of 0 means none).
+func (c cluster) quotasTerm() string {
+	var qas []string
+	for _, d := range c.Depts {
+		lim := d.Limit
+		if lim == 0 {
+			lim = -1
+		}
+		qas = append(qas, fmt.Sprintf("{| qa_id := %s; qa_parent := None; qa_shares := [%s; %s; %s] |}", u.Z(int64(d.ID)),
+			shareTerm(-1, -1), shareTerm(-1, -1), shareTerm(d.Deserved, lim)))
+	}
+	for _, q := range c.Queues {
+		lim := q.Limit
+		if lim == 0 {
+			lim = -1
+		}
+		qas = append(qas, fmt.Sprintf("{| qa_id := %s; qa_parent := Some %s; qa_shares := [%s; %s; %s] |}", u.Z(int64(q.ID)),
+			u.Z(int64(q.Dept)), shareTerm(q.DeservedCPU, q.LimitCPU), shareTerm(-1, -1), shareTerm(q.Deserved, lim)))
+	}
+	return u.List(qas)
+}
+
+func comparable(a, b jobSpec) bool {
+	if a.Queue != b.Queue || a.Shape != b.Shape || a.Pre != b.Pre || len(a.Req) != len(b.Req) {
+		return false
+	}
+	for i := range a.Req {
+		if a.Req[i] != b.Req[i] {
+			return false
+		}
+	}
+	return true
+}
+
+func preShort(spec int, prio int32) string {
+	s := "d"
+	if spec != specUnset {
+		s = "e"
+	}
+	if supposedPre(spec, prio) == specPreemptible {
+		return s + "P"
+	}
+	return s + "N"
+}
+
 func emitAL(out *u.Out, origin string, c cluster, depth int, res alResult) {
 	var qs []queueSpec
 	for _, d := range c.Depts {
-		qs = append(qs, queueSpec{ID: d})
+		qs = append(qs, queueSpec{ID: d.ID})
 	}
 	used := map[int]bool{}
 	for _, q := range c.Queues {
@@ -254,57 +592,109 @@ func emitAL(out *u.Out, origin string, c cluster, depth int, res alResult) {
 		}
 	}
 	order := u.ListOf(res.Order, func(v int) string { return u.Z(int64(v)) })
-	term := fmt.Sprintf("(CAL %s %s %s %s)", u.ListOf(qs, queueSpec.term), u.Z(int64(depth)), u.ListOf(res.Jobs, jobSpec.term), order)
+	pobs := u.ListOf(res.Pre, func(o preObs) string {
+		return fmt.Sprintf("{| po_uid := %s; po_spec := %s; po_seen := %s |}", u.Z(int64(o.UID)), preTerm[o.Spec], preTerm[o.Seen])
+	})
+	gobs := u.ListOf(res.Gates, func(o gateObs) string {
+		return fmt.Sprintf("{| go_uid := %s; go_capacity := %s; go_np_quota := %s |}", u.Z(int64(o.UID)),
+			verdictTerm[o.Capacity], verdictTerm[o.NPQuota])
+	})
+	term := fmt.Sprintf("(CAL %s %s %s %s %s %s %s %s)", u.ListOf(qs, queueSpec.term), u.Z(int64(depth)),
+		u.ListOf(res.Jobs, jobSpec.term), order, c.quotasTerm(), u.ListOf(res.Running, jobSpec.term), pobs, gobs)
 
+	byUID := map[int]alJob{}
+	for _, j := range c.Jobs {
+		byUID[j.UID] = j
+	}
+	gate := map[int]gateObs{}
+	for _, g := range res.Gates {
+		gate[g.UID] = g
+	}
+	// e/d = spec.preemptibility explicit / derived from the priority, P/N = preemptible / non-preemptible
 	var js []string
 	for _, j := range res.Jobs {
 		mark := "-"
 		if res.Placed[j.UID] {
 			mark = "+"
 		}
-		js = append(js, fmt.Sprintf("%su%d:q%d:p%d:t%d:s%d", mark, j.UID, j.Queue, j.Prio, j.CTime, j.Shape))
+		js = append(js, fmt.Sprintf("%su%d:q%d:p%d:t%d:T%d:%s:gate=%s/%s", mark, j.UID, j.Queue, j.Prio, j.CTime, j.Shape,
+			preShort(byUID[j.UID].Spec, byUID[j.UID].Prio), verdictShort[gate[j.UID].Capacity], verdictShort[gate[j.UID].NPQuota]))
+	}
+	var rs []string
+	for _, j := range c.Jobs {
+		if j.Running != "" {
+			rs = append(rs, fmt.Sprintf("u%d:q%d:p%d:%s:%dgpu@%s", j.UID, j.Queue, j.Prio, preShort(j.Spec, j.Prio), j.RunGPUs, j.Running))
+		}
 	}
 	var qsShort []string
+	for _, d := range c.Depts {
+		qsShort = append(qsShort, fmt.Sprintf("d%d:des%g:lim%g", d.ID, d.Deserved, d.Limit))
+	}
 	for _, q := range c.Queues {
-		qsShort = append(qsShort, fmt.Sprintf("q%d^%d:des%g:lim%g:w%g", q.ID, q.Dept, q.Deserved, q.Limit, q.Weight))
+		s := fmt.Sprintf("q%d^%d:des%g:lim%g:w%g", q.ID, q.Dept, q.Deserved, q.Limit, q.Weight)
+		if q.DeservedCPU >= 0 || q.LimitCPU >= 0 {
+			s += fmt.Sprintf(":cpudes%g:cpulim%g", q.DeservedCPU, q.LimitCPU)
+		}
+		qsShort = append(qsShort, s)
 	}
 	var ts []string
 	for i, t := range c.Templates {
-		ts = append(ts, fmt.Sprintf("T%d=%dx%dgpu", i, t.Tasks, t.GPUs))
+		ts = append(ts, fmt.Sprintf("T%d=%dx%dgpu+%gmcpu", i, t.Tasks, t.GPUs, t.CPUs))
 	}
-	nrun := 0
-	for _, j := range c.Jobs {
-		if j.Running != "" {
-			nrun++
-		}
-	}
-	label := fmt.Sprintf("%salloc %s depth=%s nodes=%v queues=[%s] templates=[%s] running=%d jobs(+placed)=[%s] order=%v",
-		streamPrefix(depth), origin, depthLabel(depth), c.Nodes, strings.Join(qsShort, " "), strings.Join(ts, " "), nrun,
-		strings.Join(js, " "), res.Order)
+	label := fmt.Sprintf("%salloc %s depth=%s nodes=%v queues=[%s] templates=[%s] running=[%s] jobs(+placed)=[%s] order=%v",
+		streamPrefix(depth), origin, depthLabel(depth), c.Nodes, strings.Join(qsShort, " "), strings.Join(ts, " "),
+		strings.Join(rs, " "), strings.Join(js, " "), res.Order)
 	out.Add(term, label)
 	out.Count("kind:alloc")
 	out.Count("alloc-depth:" + depthClass(depth))
 	out.Count(fmt.Sprintf("alloc-leaf-queues:%d", len(c.Queues)))
-	// comparable pairs: same leaf queue and shape; decided = one placed, the other not
-	pairs, decided := 0, 0
+	// comparable pairs: same leaf queue, template, request and supposed preemptibility;
+	// split = one placed, the other not; straddling = priorities on both sides of 100
+	pairs, decided, straddle, straddleExplicit, gated := 0, 0, 0, 0, 0
 	for i, a := range res.Jobs {
 		for _, b := range res.Jobs[i+1:] {
-			if a.Queue == b.Queue && a.Shape == b.Shape {
-				pairs++
-				if res.Placed[a.UID] != res.Placed[b.UID] {
-					decided++
+			if !comparable(a, b) {
+				continue
+			}
+			pairs++
+			if res.Placed[a.UID] != res.Placed[b.UID] {
+				decided++
+			}
+			if (a.Prio < 100) != (b.Prio < 100) {
+				straddle++
+				if a.Pre == specPreemptible {
+					straddleExplicit++
 				}
+			}
+			if gate[a.UID].Capacity != 0 {
+				gated++
 			}
 		}
 	}
 	out.CountN("alloc:comparable-pairs", pairs)
 	out.CountN("alloc:comparable-pairs-split", decided)
+	out.CountN("alloc:comparable-pairs-straddling-100", straddle)
+	out.CountN("alloc:comparable-pairs-straddling-100-preemptible", straddleExplicit)
+	out.CountN("alloc:comparable-pairs-refused-by-gate", gated)
 	out.CountN("alloc:jobs", len(res.Jobs))
 	out.CountN("alloc:jobs-placed", len(res.Order))
+	out.CountN("alloc:running-jobs", len(res.Running))
+	for _, j := range res.Jobs {
+		aj := byUID[j.UID]
+		out.Count("alloc-job-pre:" + preShort(aj.Spec, aj.Prio))
+		if aj.Spec == specPreemptible && aj.Prio >= 100 {
+			out.Count("alloc-job:explicit-preemptible-at-or-above-100")
+		}
+		if aj.Spec == specNonPreemptible && aj.Prio < 100 {
+			out.Count("alloc-job:explicit-non-preemptible-below-100")
+		}
+		out.Count("alloc-gate-capacity:" + verdictShort[gate[j.UID].Capacity])
+		out.Count("alloc-gate-npquota:" + verdictShort[gate[j.UID].NPQuota])
+	}
 	if decided > 0 {
 		out.NonTrivial("al|" + label)
 	}
 	if origin == "gen#0" || origin == "gen#4" {
-		out.Sample(map[string]any{"kind": "alloc", "depth": depth, "cluster": c, "placed_order": res.Order})
+		out.Sample(map[string]any{"kind": "alloc", "depth": depth, "cluster": c, "placed_order": res.Order, "gates": res.Gates})
 	}
 }
